@@ -465,6 +465,14 @@ class Chain(Part):
         o = run(PageTemplateFile, os.path.join(d, files[0][0]))
         if o.ok:
             o = run(o.value.render, boom=boom, rec=rec, stem="f")
+        # (the message is built while the files are still there: it quotes
+        # the source line from the file)
+        early = None
+        if not o.ok:
+            try:
+                early = str(o.exc)
+            except Exception as e:  # noqa: BLE001 - under test
+                early = e
         shutil.rmtree(d, ignore_errors=True)
         if o.ok:
             return Mismatch("chain:output returned", dict(detail,
@@ -478,11 +486,10 @@ class Chain(Part):
                 detail, mro=repr(type(o.exc).__mro__)))
         if case["cls"] in NON_EXCEPTION or case["cls"] == "RecursionError":
             return None
-        try:
-            msg = str(o.exc)
-        except Exception as e:  # noqa: BLE001 - the message is under test
+        if isinstance(early, Exception):
             return Mismatch("chain:the message cannot be built (%s)"
-                            % type(e).__name__, detail)
+                            % type(early).__name__, detail)
+        msg = early
         recs = [(t, fn.strip(), int(l), int(c))
                 for t, fn, l, c in REC_RE.findall(msg)]
         want = []
